@@ -114,6 +114,8 @@ type Exec struct {
 	havocLog    []havocRec
 	inTypeInv   bool
 	clauseHit   map[string]bool
+	aliasCache  map[*ssa.Function]map[string][]string
+	rebound     map[string]map[string][]string
 }
 
 type debugRef struct {
@@ -505,6 +507,20 @@ func (ex *Exec) refsOf(fn *ssa.Function) map[string][]debugRef {
 		}
 	}
 	ex.varRefs[fn] = r
+	// names that disappeared since the baseline resolve to the names that took their place
+	for old, news := range ex.aliasesOf(fn) {
+		if len(r[old]) > 0 {
+			continue
+		}
+		var merged []debugRef
+		for _, nn := range news {
+			merged = append(merged, r[nn]...)
+		}
+		sort.SliceStable(merged, func(i, j int) bool { return merged[i].order < merged[j].order })
+		if len(merged) > 0 {
+			r[old] = merged
+		}
+	}
 	return r
 }
 
@@ -534,11 +550,40 @@ func (ex *Exec) operandName(fn *ssa.Function, v ssa.Value) string {
 	case *ssa.Const:
 		return "const"
 	}
-	for name, refs := range ex.refsOf(fn) {
-		for _, r := range refs {
-			if r.val == v && !r.isAddr {
-				return name
+	{
+		// deterministic, and stable under renames: a baseline name wins over its replacement
+		best := ""
+		bestBase := false
+		base := baseNames[fnKeyOf(fn)]
+		isBase := func(n string) bool {
+			if base == nil {
+				return false
 			}
+			for _, l := range base.Locals {
+				if l.Name == n {
+					return true
+				}
+			}
+			for _, l := range base.Params {
+				if l == n {
+					return true
+				}
+			}
+			return false
+		}
+		for name, refs := range ex.refsOf(fn) {
+			for _, r := range refs {
+				if r.val == v && !r.isAddr {
+					b := isBase(name)
+					if best == "" || (b && !bestBase) || (b == bestBase && name < best) {
+						best, bestBase = name, b
+					}
+					break
+				}
+			}
+		}
+		if best != "" {
+			return best
 		}
 	}
 	switch x := v.(type) {
@@ -619,6 +664,9 @@ func safetyRoleOf(ins ssa.Instruction) (string, ssa.Value) {
 }
 
 func fnKeyOf(fn *ssa.Function) string {
+	if k, ok := keyOverride[fn]; ok {
+		return k
+	}
 	s := fn.String()
 	return shortenPaths(s)
 }
